@@ -450,7 +450,11 @@ func (c c19) runHistory(e *Env, cs *Case, p c19Params) (*Outcome, error) {
 	if err != nil {
 		return nil, err
 	}
-	sum, n := DebugDirSum(filepath.Join(w.Out, "debugdir"))
+	deps, err := e.Deps("p1", []Edit{ed})
+	if err != nil {
+		return nil, err
+	}
+	sum, n, _ := DebugDirSum(filepath.Join(w.Out, "debugdir"), deps)
 	o.Sample = map[string]any{"params": p, "debugdir_files": n, "reference_files": ref.DebugN}
 	o.Probes["debugdir-tree-compared"]++
 	if sum != ref.DebugSum {
@@ -608,9 +612,14 @@ func (c c19) Run(e *Env, cs *Case) (*Outcome, error) {
 		if err != nil {
 			return nil, err
 		}
-		sum, n := DebugDirSum(filepath.Join(w.Out, "debugdir"))
+		deps, err := e.Deps("p1", nil)
+		if err != nil {
+			return nil, err
+		}
+		sum, n, extras := DebugDirSum(filepath.Join(w.Out, "debugdir"), deps)
+		o.Probes["debugdir-files-of-unbuilt-packages"] += extras
 		if sum != ref.DebugSum {
-			return viol("debugdir-incomplete", fmt.Sprintf("-debugdir tree has %d files and differs from the cold reference (%d files)", n, ref.DebugN))
+			return viol("debugdir-incomplete", fmt.Sprintf("the -debugdir trees of the build's packages have %d files and differ from the cold reference (%d files)", n, ref.DebugN))
 		}
 		o.Probes["debugdir-tree-compared"]++
 	}
